@@ -19,6 +19,7 @@ EXPLANATION = (
     'pending queue is mutated only by its owner functions and only at the documented end (C01.R2 re-evaluated: a wipe of the queue in the disconnect path '
     'loses commands that are still within their lifetime).'
     ' Added later: R2 also demands that nothing suspends between the expiry test and the bytes reaching the stream (no await in the drain between test and _write, none in _write before the first write); R6 decides every accumulating construct the selecting condition names even when no caller passes it today.'
+    ' Rounds 7-8: R2 also: _write raises of its own accord only when no writer is stored (a connection condition must surface as OSError so that the message is re-queued); R3 also: the failed entry is back in the queue before the handler first suspends; R5 also: commands keep their 30 s lifetime and a fixed-policy command is RETRY_IDEMPOTENT.'
 )
 ASSUMPTIONS = [
     "the event-loop clock is monotonic",
@@ -161,7 +162,7 @@ def r2(ctx):
                     found = f"write permitted when {var}.expiry {o[1]} now (must be strictly '>': never at or after the lifetime)"
                     continue
                 if kind == "local":
-                    fresh = popnode is not None and drain.cfg.dominates(popnode.id, dnode.id) and not drain.awaits_between(dnode, t)
+                    fresh = popnode is not None and drain.cfg.dominates(popnode.id, dnode.id) and not drain.awaits_between(dnode, t, fresh=True)
                     # the definition must be re-evaluated in every iteration: it must lie inside the loop, i.e. be reachable from the write
                     fresh = fresh and drain.cfg.exists_path(wn.id, dnode.id)
                     if not fresh:
